@@ -213,7 +213,11 @@ func runSupervised(c *Ctx, prop string) {
 		} else if prop == "C06" {
 			// two connections were established; the second is closed now: each gets its one DISCONNECTED
 			closed := CloseWatched(conn)
-			rig.WaitNoLib(WaitShort, 400)
+			if _, quiet := rig.WaitNoLib(WaitShort, 400); closed && !quiet {
+				// (the goroutine that ended the first connection may not have delivered its DISCONNECTED yet)
+				c.R.Inconcl(fmt.Sprintf("%s: library goroutines still running after Close", Case("sup", idx)))
+				return
+			}
 			nd := 0
 			for _, e := range lg.Events() {
 				if e.Kind == "DISC" {
